@@ -6,8 +6,14 @@ import (
 	"math"
 	"sync"
 
+	"github.com/golang/snappy"
+
 	"github.com/hydraide/hydraide/app/core/compressor"
 )
+
+// maxSnappyExpansion is an upper bound on how much Snappy can expand its input:
+// the densest element of the format is a 3-byte copy that produces 64 bytes.
+const maxSnappyExpansion = 22
 
 // snappyCompressor is a shared compressor instance for Snappy compression
 var snappyCompressor = compressor.New(compressor.Snappy)
@@ -164,6 +170,20 @@ type Block struct {
 func ParseBlock(header *BlockHeader, compressedData []byte) (*Block, error) {
 	// Validate checksum
 	if !ValidateChecksum(compressedData, header.Checksum) {
+		return nil, ErrCorruptedBlock
+	}
+
+	// The Snappy stream starts with the length of the decompressed data and the
+	// decoder allocates that much up front. The checksum does not protect against
+	// a length that was wrong when the block was written (or forged together with
+	// the checksum), so check it against the block header and against what the
+	// compressed bytes can possibly expand to before decompressing.
+	decodedLen, err := snappy.DecodedLen(compressedData)
+	if err != nil {
+		return nil, err
+	}
+	if uint64(decodedLen) != uint64(header.UncompressedSize) ||
+		uint64(decodedLen) > maxSnappyExpansion*uint64(len(compressedData)) {
 		return nil, ErrCorruptedBlock
 	}
 
